@@ -25,7 +25,7 @@ from harness import fw
 META = {
     "id": "C05",
     "technique": "Coq proof (induction over item lists, nested statements and the number of passes) about a Gallina model of parse()'s setup/loop split and emit()'s configuration hoisting + extracted-model correspondence with the real Program IR and with compiled firmware traces + extracted temporal monitors run on real traces + CPython reference traces",
-    "level_text": "Theorems C05_* (coq/Props/C05.v) are proved for all item lists, all input histories and all N>=0 about the model coq/Lang/Split.v + coq/Lang/Emit.v (split, poll/tick injection, break guard, global/local variable lifetime, configuration hoisting with emit()'s dedup sets, the binding each command resolves to when a device name is bound several times); the model is run against the real parse() IR and against the emitted C++ compiled with g++ and executed under the mock Arduino core; the proved monitors are extracted and evaluated on the real traces.",
+    "level_text": "Theorems C05_* (coq/Props/C05.v) are proved for all item lists, all input histories and all N>=0 about the model coq/Lang/Split.v + coq/Lang/Emit.v (split, poll/tick injection, break guard through if / else / try / except / for / while nesting, global/local variable lifetime incl. names promoted out of if-else / for / while / try-except blocks, configuration hoisting with emit()'s dedup sets, the binding each command resolves to when a device name is bound several times); the model is run against the real parse() IR and against the emitted C++ compiled with g++ and executed under the mock Arduino core; the proved monitors are extracted and evaluated on the real traces.",
     "level_note": "Trusted: Coq kernel, extraction, OCaml driver, mock Arduino core (definition of 'device'), CPython 3.12 + harness/impl/pyrun_impl.py (definition of 'what Python does'), the script renderer and trace abstraction in harness/props/c05.py. The theorems are about the model; the correspondence bounds its distance from parser.py / emitter.py on the generated fragment.",
     "design_ref": "DESIGN.md section 4 C05, Appendix B.1, B.5",
 }
